@@ -28,6 +28,7 @@ package table
 // no counter except "unroutable".
 //@ func (table *Table) DispatchAggregate(buf []byte)
 //@   property C01,C11,C18
+//@   logged
 //@   requires table.wf()
 //@   let c := table.conf()
 //@   let name := nameOf(buf[..])
@@ -61,6 +62,7 @@ package table
 //@
 //@ func (table *Table) Dispatch(buf []byte)
 //@   property C01,C02,C04,C11,C18,C19
+//@   logged
 //@   requires table.wf() && validate.pkgInv()
 //@   let c    := table.conf()
 //@   let cref := table.config.valref
@@ -273,3 +275,19 @@ package table
 //@        && (forall j int :: id <= j && j < n - 1 ==> sameRW(table.conf().rewriters[j], old(c.rewriters[j + 1])))
 //@   ensures[others]      table.conf().routes == old(c.routes) && table.conf().blacklist == old(c.blacklist) && table.conf().aggregators == old(c.aggregators) && sameScalars(table.conf(), c)
 //@   ensures[snapshot_immutable] len(c.rewriters) == n && (forall j int :: 0 <= j && j < n ==> sameRW(c.rewriters[j], old(c.rewriters[j])))
+
+// ---------------------------------------------------------------- New (C11): aggregator output enters the table through DispatchAggregate only
+// The goroutine started by New hands every line that arrives on the table's input channel (where aggregators write)
+// to DispatchAggregate, in order, each once, and never to Dispatch -- so aggregate output is not validated,
+// blacklisted, rewritten or aggregated again.
+//@ func table.New$1()
+//@   property C11
+//@   requires t != nil && t.In != nil && t.wf()
+//@   let C0 := calls(t.DispatchAggregate)
+//@   let R0 := recvd(t.In)
+//@   modifies *
+//@   loop 1:
+//@     invariant[wf] t != nil && t.In == old(t.In) && t.In != nil && t.wf()
+//@     invariant[each_line_once_in_order; C11] llen(calls(t.DispatchAggregate)) - llen(C0) == llen(recvd(t.In)) - llen(R0) && llen(recvd(t.In)) >= llen(R0)
+//@        && (forall j int :: 0 <= j && j < llen(recvd(t.In)) - llen(R0) ==> lget(calls(t.DispatchAggregate), llen(C0) + j) == eP(lget(recvd(t.In), llen(R0) + j), eNil))
+//@     invariant[never_the_full_pipeline; C11] calls(t.Dispatch) == old(calls(t.Dispatch))
